@@ -1,0 +1,373 @@
+//go:build verif
+
+package filetransfer
+
+// Machine-checked contracts for /verif (govc). Comment-only, compiled only
+// with -tags verif; changes no behaviour.
+//
+// The ghost view of the file system (fsReal, fsRealNF, fsEpoch), the lexical
+// path functions (fpClean, fpAbsOf, fpJoin2, ...) and the trusted contracts of
+// the os / filepath / tar calls live in /verif/contracts/extern/fs.spec.
+
+// ---- C26: what the lexical validators establish ----
+//
+// fpNorm(p) is normalizePath(p). allowedBy(pat, q) is the meaning of one
+// allowed_paths entry, read off isPathAllowed: "*" allows everything; "base/**"
+// and glob-free entries allow base and everything lexically below it; other glob
+// patterns allow q when the pattern matches q or one of its lexical ancestors.
+// "Some entry allows q" is written  !(forall j in 0..len(A): !allowedBy(A[j], q))
+// rather than  exists j ...  : the engine gives the universal form an
+// instantiation pattern on A[j], which makes these obligations several times faster.
+
+//@ ghost func fpNorm(p string) string = fpClean(fpNFC(p))
+//@ ghost func endsSlash(s string) bool = len(s) >= 1 && s[len(s) - 1] == '/'
+//@ ghost func endsSS(s string) bool = len(s) >= 3 && s[len(s) - 3] == '/' && s[len(s) - 2] == '*' && s[len(s) - 1] == '*'
+//@ ghost func underPrefix(p string, pre string) bool = p == pre || (hasprefix(p, pre) && (endsSlash(pre) || (len(p) > len(pre) && p[len(pre)] == '/')))
+//@ ghost func hasGlobChar(s string) bool = exists i in 0..len(s): s[i] == '*' || s[i] == '?' || s[i] == '['
+//@ ghost func patAllows(pat string, q string) bool = ite(endsSS(fpNorm(pat)), underPrefix(fpNorm(q), fpNorm(fpNorm(pat)[0:len(fpNorm(pat)) - 3])), ite(hasGlobChar(fpNorm(pat)), fpGlob(fpNorm(pat), q) || fpGlobAnc(fpNorm(pat), q), underPrefix(fpNorm(q), fpNorm(fpNorm(pat)))))
+//@ ghost func allowedBy(pat string, q string) bool = pat == "*" || patAllows(pat, q)
+
+//@ func normalizePath
+//@ prop C26
+//@ ensures result == fpNorm(path)
+
+//@ func isPathUnderPrefix
+//@ prop C26
+//@ ensures result == underPrefix(fpNorm(path), fpNorm(prefix))
+
+//@ func isPathAllowed
+//@ prop C26
+//@ loop 0 invariant fpGlobAnc(cleanPattern, path) == fpGlobAnc(cleanPattern, dir) && cleanPattern == fpNorm(pattern)
+//@ ensures endsSS(fpNorm(pattern)) ==> result == underPrefix(fpNorm(path), fpNorm(fpNorm(pattern)[0:len(fpNorm(pattern)) - 3]))
+//@ ensures !endsSS(fpNorm(pattern)) && hasGlobChar(fpNorm(pattern)) ==> result == (fpGlob(fpNorm(pattern), path) || fpGlobAnc(fpNorm(pattern), path))
+//@ ensures !endsSS(fpNorm(pattern)) && !hasGlobChar(fpNorm(pattern)) ==> result == underPrefix(fpNorm(path), fpNorm(fpNorm(pattern)))
+//@ ensures result == patAllows(pattern, path)
+
+//@ func containsDangerousChars
+//@ prop C26
+
+//@ func (*StreamHandler).validatePath
+//@ prop C26
+//@ loop 0 invariant -1 <= rangeindex && rangeindex < len(h.cfg.AllowedPaths)
+//@ ensures err == nil ==> len(h.cfg.AllowedPaths) > 0
+//@ ensures err == nil ==> isAbsPath(fpNorm(path)) && !strHas(fpNorm(path), "..")
+//@ ensures err == nil && (exists j in 0..len(h.cfg.AllowedPaths): h.cfg.AllowedPaths[j] == "*") ==> !(forall j in 0..len(h.cfg.AllowedPaths): !allowedBy(h.cfg.AllowedPaths[j], fpNorm(path)))
+//@ ensures err == nil && !(exists j in 0..len(h.cfg.AllowedPaths): h.cfg.AllowedPaths[j] == "*") ==> !(forall j in 0..len(h.cfg.AllowedPaths): !allowedBy(h.cfg.AllowedPaths[j], fpNorm(path)))
+//@ note the two clauses above are one statement split on whether the list contains "*": the solvers do not discharge the unsplit clause jointly over both accepting return paths
+
+// ---- C26: upload / download validation ----
+//
+// validateCommon (hence both Validate*Metadata) establishes: feature enabled,
+// password accepted, allow list non-empty, Clean(NFC(meta.Path)) absolute, free of
+// ".." and matched by an entry. Its last postcondition says that the path the
+// transfer later uses, Clean(meta.Path), is matched: it does not hold (no NFC).
+// validateSymlinkTarget adds, only when the FINAL component is a symbolic link
+// (c26resolved == 1), that the NFC form of the fully resolved location is matched.
+
+//@ ghost var c26resolved int
+
+//@ func (*StreamHandler).authenticate
+//@ prop C26
+//@ ensures err == nil ==> h.cfg.PasswordHash == "" || bcryptOK(h.cfg.PasswordHash, password)
+
+//@ func (*StreamHandler).validateCommon
+//@ prop C26
+//@ ensures err == nil ==> h.cfg.Enabled && (h.cfg.PasswordHash == "" || bcryptOK(h.cfg.PasswordHash, meta.Password))
+//@ ensures err == nil ==> len(h.cfg.AllowedPaths) > 0 && isAbsPath(fpNorm(meta.Path)) && !strHas(fpNorm(meta.Path), "..")
+//@ ensures err == nil ==> !(forall j in 0..len(h.cfg.AllowedPaths): !allowedBy(h.cfg.AllowedPaths[j], fpNorm(meta.Path)))
+//@ ensures err == nil ==> !(forall j in 0..len(h.cfg.AllowedPaths): !allowedBy(h.cfg.AllowedPaths[j], fpClean(meta.Path)))
+
+//@ func (*StreamHandler).ValidateUploadMetadata
+//@ prop C26
+//@ ensures err == nil ==> h.cfg.Enabled && len(h.cfg.AllowedPaths) > 0 && isAbsPath(fpNorm(meta.Path)) && !strHas(fpNorm(meta.Path), "..")
+//@ ensures err == nil ==> !(forall j in 0..len(h.cfg.AllowedPaths): !allowedBy(h.cfg.AllowedPaths[j], fpNorm(meta.Path)))
+//@ ensures err == nil && !meta.IsDirectory && meta.Size > 0 && h.cfg.MaxFileSize > 0 ==> meta.Size <= h.cfg.MaxFileSize
+
+//@ func (*StreamHandler).validateSymlinkTarget
+//@ prop C26
+//@ modifies c26resolved
+//@ ghostinit c26resolved = 0
+//@ after call EvalSymlinks set c26resolved = ite($ret1 == nil, 1, 0)
+//@ at call os.Lstat assert $0 == path
+//@ at call EvalSymlinks assert $0 == path
+//@ ensures err == nil && c26resolved == 1 ==> len(h.cfg.AllowedPaths) > 0 && !(forall j in 0..len(h.cfg.AllowedPaths): !allowedBy(h.cfg.AllowedPaths[j], fpNorm(fsReal(fsEpoch, path))))
+
+//@ func (*StreamHandler).ValidateDownloadMetadata
+//@ prop C26
+//@ modifies c26resolved
+//@ after call validateCommon let vcErr = $ret
+//@ at call validateSymlinkTarget assert vcErr == nil && $1 == meta.Path
+//@ at call os.Stat assert vcErr == nil && $0 == meta.Path
+//@ at call os.Stat assert !(forall j in 0..len(h.cfg.AllowedPaths): !allowedBy(h.cfg.AllowedPaths[j], fsReal(fsEpoch, $0)))
+//@ ensures err == nil ==> h.cfg.Enabled && len(h.cfg.AllowedPaths) > 0 && isAbsPath(fpNorm(meta.Path)) && !strHas(fpNorm(meta.Path), "..")
+//@ ensures err == nil ==> !(forall j in 0..len(h.cfg.AllowedPaths): !allowedBy(h.cfg.AllowedPaths[j], fpNorm(meta.Path)))
+//@ ensures err == nil && c26resolved == 1 ==> !(forall j in 0..len(h.cfg.AllowedPaths): !allowedBy(h.cfg.AllowedPaths[j], fpNorm(fsReal(fsEpoch, meta.Path))))
+
+// ---- C26: the transfer itself ----
+//
+// The three entry points are called by the agent with the path of an accepted
+// request. Precondition: the location Clean(path) denotes, links resolved, is
+// matched by an entry of the (non-empty) allow list - what C26 demands of every
+// call below. The agent cannot discharge it (findings at its call sites).
+
+//@ func (*StreamHandler).WriteUploadedFile
+//@ prop C26
+//@ modifies *, fsEpoch
+//@ requires len(h.cfg.AllowedPaths) > 0 && !(forall j in 0..len(h.cfg.AllowedPaths): !allowedBy(h.cfg.AllowedPaths[j], fsReal(fsEpoch, fpClean(path))))
+//@ at call UntarDirectory assert $1 == fpClean(old(path))
+//@ at call CalculateDirectorySize assert $0 == fpClean(old(path))
+//@ at call os.MkdirAll assert $0 == fpDir(fpClean(old(path)))
+//@ at call os.OpenFile assert $0 == fpClean(old(path))
+//@ at call UntarDirectory assert len(h.cfg.AllowedPaths) > 0 && !(forall j in 0..len(h.cfg.AllowedPaths): !allowedBy(h.cfg.AllowedPaths[j], fsReal(fsEpoch, fpClean(old(path)))))
+//@ at call os.OpenFile assert len(h.cfg.AllowedPaths) > 0 && !(forall j in 0..len(h.cfg.AllowedPaths): !allowedBy(h.cfg.AllowedPaths[j], fsReal(fsEpoch, fpClean(old(path)))))
+//@ at call io.LimitReader assert $1 == old(h.cfg.MaxFileSize) + 1
+//@ ensures err == nil && !isDirectory && old(h.cfg.MaxFileSize) > 0 ==> result <= old(h.cfg.MaxFileSize)
+
+//@ func gzipPipeReader
+//@ prop C26
+
+//@ func (*StreamHandler).ReadFileForDownload
+//@ prop C26
+//@ requires len(h.cfg.AllowedPaths) > 0 && !(forall j in 0..len(h.cfg.AllowedPaths): !allowedBy(h.cfg.AllowedPaths[j], fsReal(fsEpoch, fpClean(path))))
+//@ at call os.Stat assert $0 == fpClean(old(path))
+//@ at call os.Open assert $0 == fpClean(old(path))
+//@ at call os.Stat assert len(h.cfg.AllowedPaths) > 0 && !(forall j in 0..len(h.cfg.AllowedPaths): !allowedBy(h.cfg.AllowedPaths[j], fsReal(fsEpoch, fpClean(old(path)))))
+//@ at call os.Open assert len(h.cfg.AllowedPaths) > 0 && !(forall j in 0..len(h.cfg.AllowedPaths): !allowedBy(h.cfg.AllowedPaths[j], fsReal(fsEpoch, fpClean(old(path)))))
+//@ at call ReadFileForDownload$1 assert len(h.cfg.AllowedPaths) > 0 && !(forall j in 0..len(h.cfg.AllowedPaths): !allowedBy(h.cfg.AllowedPaths[j], fsReal(fsEpoch, fpClean(old(path)))))
+
+// the goroutine that archives a directory: on the cleaned path of the enclosing call
+//@ func (*StreamHandler).ReadFileForDownload$1
+//@ prop C26
+//@ modifies *
+//@ at call TarDirectory assert $0 == path
+
+//@ func (*StreamHandler).ReadFileForDownloadAtOffset
+//@ prop C26
+//@ requires len(h.cfg.AllowedPaths) > 0 && !(forall j in 0..len(h.cfg.AllowedPaths): !allowedBy(h.cfg.AllowedPaths[j], fsReal(fsEpoch, fpClean(path))))
+//@ at call os.Stat assert $0 == fpClean(old(path))
+//@ at call os.Open assert $0 == fpClean(old(path))
+//@ at call os.Stat assert len(h.cfg.AllowedPaths) > 0 && !(forall j in 0..len(h.cfg.AllowedPaths): !allowedBy(h.cfg.AllowedPaths[j], fsReal(fsEpoch, fpClean(old(path)))))
+//@ at call os.Open assert len(h.cfg.AllowedPaths) > 0 && !(forall j in 0..len(h.cfg.AllowedPaths): !allowedBy(h.cfg.AllowedPaths[j], fsReal(fsEpoch, fpClean(old(path)))))
+
+// Directory download: the archive is built from the tree below the cleaned
+// directory; the walk callback touches only the path filepath.Walk hands it, and
+// opens it only when Walk's lstat reported a regular file (not a link).
+//@ func TarDirectory
+//@ prop C26
+//@ modifies *
+//@ at call os.Stat assert $0 == fpClean(old(dir))
+//@ at call filepath.Walk assert $0 == fpClean(old(dir))
+
+//@ func TarDirectory$1
+//@ prop C26
+//@ modifies *
+//@ after call IsRegular let reg = $ret
+//@ at call os.Readlink assert $0 == path
+//@ at call os.Open assert $0 == path && reg
+
+//@ func CalculateDirectorySize
+//@ prop C26
+//@ modifies *
+//@ at call filepath.Walk assert $0 == dir
+
+// ---- C26: remote browsing ----
+//
+// requirePath is the only validator of the browse actions. It establishes the
+// lexical facts about fpNorm(path) = Clean(NFC(path)) and hands back Clean(path).
+// The last postcondition says the returned path itself matches an entry: it does
+// not hold, because the returned path is not NFC-normalised (finding).
+
+//@ func (*StreamHandler).requirePath
+//@ prop C26
+//@ modifies *
+//@ ensures result1 == nil ==> result0 == fpClean(path)
+//@ ensures result1 == nil ==> len(h.cfg.AllowedPaths) > 0 && isAbsPath(fpNorm(path)) && !strHas(fpNorm(path), "..")
+//@ ensures result1 == nil ==> !(forall j in 0..len(h.cfg.AllowedPaths): !allowedBy(h.cfg.AllowedPaths[j], fpNorm(path)))
+//@ ensures result1 == nil ==> !(forall j in 0..len(h.cfg.AllowedPaths): !allowedBy(h.cfg.AllowedPaths[j], result0))
+
+// Leaf helpers: every file-system call is made on the path (or directory entry) handed in.
+//@ func populateFromFileInfo
+//@ prop C26
+//@ modifies entry.Size, entry.IsDir, entry.Mode, entry.ModTime
+
+//@ func resolveSymlink
+//@ prop C26
+//@ modifies entry.IsSymlink, entry.LinkTarget, entry.Size, entry.IsDir, entry.Mode, entry.ModTime
+//@ at call os.Readlink assert $0 == path
+//@ at call os.Stat assert $0 == path
+
+//@ func statPath
+//@ prop C26
+//@ at call os.Lstat assert $0 == path
+//@ at call resolveSymlink assert $1 == path
+
+//@ func buildFileEntry
+//@ prop C26
+//@ at call os.Lstat assert $0 == fpJoin2(dir, deName(de))
+//@ at call resolveSymlink assert $1 == fpJoin2(dir, deName(de))
+
+// Browse actions. okLex: requirePath accepted the request (non-empty allow list,
+// Clean(NFC(path)) matches an entry) and the call is made on Clean(path). The
+// "real" guards say that the object each call acts on, links resolved, matches an
+// entry of the allow list; nothing establishes them (findings).
+
+//@ func (*StreamHandler).browseList
+//@ prop C26
+//@ modifies *
+//@ after call requirePath let cp = $ret0
+//@ after call requirePath let okLex = $ret1 == nil && $ret0 == fpClean(req.Path) && len(h.cfg.AllowedPaths) > 0 && !(forall j in 0..len(h.cfg.AllowedPaths): !allowedBy(h.cfg.AllowedPaths[j], fpNorm(req.Path)))
+//@ at call os.Stat assert okLex && $0 == cp
+//@ at call os.ReadDir assert okLex && $0 == cp
+//@ at call buildFileEntry assert okLex && $0 == cp
+//@ at call os.Stat assert !(forall j in 0..len(h.cfg.AllowedPaths): !allowedBy(h.cfg.AllowedPaths[j], fsReal(fsEpoch, $0)))
+//@ at call os.ReadDir assert !(forall j in 0..len(h.cfg.AllowedPaths): !allowedBy(h.cfg.AllowedPaths[j], fsReal(fsEpoch, $0)))
+//@ at call buildFileEntry assert !(forall j in 0..len(h.cfg.AllowedPaths): !allowedBy(h.cfg.AllowedPaths[j], fsReal(fsEpoch, fpJoin2($0, deName($1)))))
+
+//@ func (*StreamHandler).browseStat
+//@ prop C26
+//@ modifies *
+//@ after call requirePath let cp = $ret0
+//@ after call requirePath let okLex = $ret1 == nil && $ret0 == fpClean(req.Path) && len(h.cfg.AllowedPaths) > 0 && !(forall j in 0..len(h.cfg.AllowedPaths): !allowedBy(h.cfg.AllowedPaths[j], fpNorm(req.Path)))
+//@ at call statPath assert okLex && $0 == cp
+//@ at call statPath assert (!(forall j in 0..len(h.cfg.AllowedPaths): !allowedBy(h.cfg.AllowedPaths[j], fsRealNF(fsEpoch, $0)))) && (!(forall j in 0..len(h.cfg.AllowedPaths): !allowedBy(h.cfg.AllowedPaths[j], fsReal(fsEpoch, $0))))
+
+//@ func (*StreamHandler).browseChmod
+//@ prop C26
+//@ modifies *
+//@ after call requirePath let cp = $ret0
+//@ after call requirePath let okLex = $ret1 == nil && $ret0 == fpClean(req.Path) && len(h.cfg.AllowedPaths) > 0 && !(forall j in 0..len(h.cfg.AllowedPaths): !allowedBy(h.cfg.AllowedPaths[j], fpNorm(req.Path)))
+//@ at call os.Chmod assert okLex && $0 == cp
+//@ at call statPath assert okLex && $0 == cp
+//@ at call os.Chmod assert !(forall j in 0..len(h.cfg.AllowedPaths): !allowedBy(h.cfg.AllowedPaths[j], fsReal(fsEpoch, $0)))
+//@ at call statPath assert (!(forall j in 0..len(h.cfg.AllowedPaths): !allowedBy(h.cfg.AllowedPaths[j], fsRealNF(fsEpoch, $0)))) && (!(forall j in 0..len(h.cfg.AllowedPaths): !allowedBy(h.cfg.AllowedPaths[j], fsReal(fsEpoch, $0))))
+
+//@ func (*StreamHandler).browseDelete
+//@ prop C26
+//@ modifies *, fsEpoch
+//@ after call requirePath let cp = $ret0
+//@ after call requirePath let okLex = $ret1 == nil && $ret0 == fpClean(req.Path) && len(h.cfg.AllowedPaths) > 0 && !(forall j in 0..len(h.cfg.AllowedPaths): !allowedBy(h.cfg.AllowedPaths[j], fpNorm(req.Path)))
+//@ at call statPath assert okLex && $0 == cp
+//@ at call os.ReadDir assert okLex && $0 == cp
+//@ note dynamic.t34 is the call through the local variable removeFunc (os.Remove or os.RemoveAll); the engine names such a call after its SSA register, so these two guards must be re-pointed if browseDelete is edited (a guard that matches no call produces no obligation; the census lines cannot see os.Remove/os.RemoveAll used as values)
+//@ at call dynamic.t34 assert okLex && $0 == cp
+//@ at call statPath assert (!(forall j in 0..len(h.cfg.AllowedPaths): !allowedBy(h.cfg.AllowedPaths[j], fsRealNF(fsEpoch, $0)))) && (!(forall j in 0..len(h.cfg.AllowedPaths): !allowedBy(h.cfg.AllowedPaths[j], fsReal(fsEpoch, $0))))
+//@ at call os.ReadDir assert !(forall j in 0..len(h.cfg.AllowedPaths): !allowedBy(h.cfg.AllowedPaths[j], fsReal(fsEpoch, $0)))
+//@ at call dynamic.t34 assert !(forall j in 0..len(h.cfg.AllowedPaths): !allowedBy(h.cfg.AllowedPaths[j], fsRealNF(fsEpoch, $0)))
+
+//@ func (*StreamHandler).browseRoots
+//@ prop C26
+//@ modifies *
+
+// Browse dispatches only when the feature is enabled and the password check passed.
+//@ func (*StreamHandler).Browse
+//@ prop C26
+//@ modifies *, fsEpoch
+//@ after call authenticate let authErr = $ret
+//@ at call browseList assert h.cfg.Enabled && authErr == nil
+//@ at call browseStat assert h.cfg.Enabled && authErr == nil
+//@ at call browseRoots assert h.cfg.Enabled && authErr == nil
+//@ at call browseChmod assert h.cfg.Enabled && authErr == nil
+//@ at call browseDelete assert h.cfg.Enabled && authErr == nil
+
+//@ census[C26] (*StreamHandler).requirePath in (*StreamHandler).browseList, (*StreamHandler).browseStat, (*StreamHandler).browseChmod, (*StreamHandler).browseDelete
+//@ census[C26] statPath in (*StreamHandler).browseStat, (*StreamHandler).browseChmod, (*StreamHandler).browseDelete
+//@ census[C26] buildFileEntry in (*StreamHandler).browseList
+//@ census[C26] resolveSymlink in statPath, buildFileEntry
+//@ census[C26] (*StreamHandler).browseList in (*StreamHandler).Browse
+//@ census[C26] (*StreamHandler).browseStat in (*StreamHandler).Browse
+//@ census[C26] (*StreamHandler).browseChmod in (*StreamHandler).Browse
+//@ census[C26] (*StreamHandler).browseDelete in (*StreamHandler).Browse
+
+// ---- C27: extracting an uploaded directory archive stays inside the destination ----
+
+//@ func sanitizeTarPath
+//@ prop C27
+//@ ensures err == nil ==> result == fpJoin2(destDir, fpClean(name))
+//@ ensures err == nil ==> lexWithin(result, destDir)
+//@ ensures err == nil ==> !isAbsPath(fpClean(name)) && fpClean(name) != ".." && !hasprefix(fpClean(name), "../") && !strHas(fpClean(name), "/../")
+
+//@ func validateSymlink
+//@ prop C27
+//@ ensures err == nil ==> !isAbsPath(target)
+//@ ensures err == nil ==> lexWithin(fpClean(fpJoin2(fpDir(symlinkPath), target)), destDir)
+
+// Every file-system call of the extraction loop. "lex" guards (proved): the path
+// handed to the call is lexically inside the cleaned destination, as established by
+// sanitizeTarPath / validateSymlink for this very entry. "real" guards: the object
+// the call acts on lies inside the destination once links are resolved - this is
+// what C27 demands, and nothing in the function establishes it.
+//@ func UntarDirectory
+//@ prop C27
+//@ modifies *, fsEpoch
+//@ loop 0 invariant destDir == fpClean(old(destDir))
+//@ at call os.MkdirAll#0 assert $0 == fpClean(old(destDir))
+//@ after call sanitizeTarPath#0 let tp = $ret0
+//@ at call os.MkdirAll#1 assert $0 == tp && lexWithin($0, destDir)
+//@ at call os.MkdirAll#2 assert $0 == fpDir(tp) && (lexWithin($0, destDir) || fpAbsOf(tp) == fpAbsOf(destDir))
+//@ at call os.OpenFile assert $0 == tp && lexWithin($0, destDir)
+//@ at call os.MkdirAll#3 assert $0 == fpDir(tp) && (lexWithin($0, destDir) || fpAbsOf(tp) == fpAbsOf(destDir))
+//@ at call os.Remove#0 assert $0 == tp && lexWithin($0, destDir)
+//@ at call os.Symlink assert $1 == tp && lexWithin($1, destDir)
+//@ at call os.Symlink assert !isAbsPath($0) && lexWithin(fpClean(fpJoin2(fpDir($1), $0)), destDir)
+//@ at call os.MkdirAll#4 assert $0 == fpDir(tp) && (lexWithin($0, destDir) || fpAbsOf(tp) == fpAbsOf(destDir))
+//@ at call os.Remove#1 assert $0 == tp && lexWithin($0, destDir)
+//@ at call os.Link assert $1 == tp && lexWithin($1, destDir) && lexWithin($0, destDir)
+//@ note the MkdirAll of filepath.Dir(targetPath) is lexically inside the destination except for an entry whose cleaned name is "." (targetPath is the destination itself): then it names the parent of the destination, which exists, and creates nothing
+//@ at call os.MkdirAll#1 assert realWithin(fsEpoch, $0, destDir)
+//@ at call os.MkdirAll#2 assert realWithin(fsEpoch, $0, destDir) || fpAbsOf(tp) == fpAbsOf(destDir)
+//@ at call os.OpenFile assert realWithin(fsEpoch, $0, destDir)
+//@ at call os.MkdirAll#3 assert realWithin(fsEpoch, $0, destDir) || fpAbsOf(tp) == fpAbsOf(destDir)
+//@ at call os.Remove#0 assert realWithinNF(fsEpoch, $0, destDir)
+//@ at call os.Symlink assert realWithinNF(fsEpoch, $1, destDir) && realWithin(fsEpoch, fpJoin2(fpDir($1), $0), destDir)
+//@ at call os.MkdirAll#4 assert realWithin(fsEpoch, $0, destDir) || fpAbsOf(tp) == fpAbsOf(destDir)
+//@ at call os.Remove#1 assert realWithinNF(fsEpoch, $0, destDir)
+//@ at call os.Link assert realWithinNF(fsEpoch, $1, destDir) && realWithin(fsEpoch, $0, destDir)
+//@ at call io.LimitReader assert $1 == 1073741824
+//@ note every regular-file entry is copied through a 1 GiB limit reader (a larger entry is silently truncated, not rejected)
+
+//@ census[C27] sanitizeTarPath in UntarDirectory
+//@ census[C27] validateSymlink in UntarDirectory
+
+// ---- C26 / C27: every call site of a file-system function in this package ----
+//
+// partial.go (resume bookkeeping next to a local destination file) has no caller
+// outside the tests; its functions are pinned as uncalled inside this package and,
+// in the agent's contract file, as uncalled by the agent.
+
+//@ census[C26,C27] os.Stat in (*StreamHandler).ReadFileForDownload, (*StreamHandler).ReadFileForDownloadAtOffset, (*StreamHandler).ValidateDownloadMetadata, (*StreamHandler).browseList, HasPartialFile, TarDirectory, resolveSymlink
+//@ census[C26,C27] os.Lstat in (*StreamHandler).validateSymlinkTarget, buildFileEntry, statPath
+//@ census[C26,C27] os.Open in (*StreamHandler).ReadFileForDownload, (*StreamHandler).ReadFileForDownloadAtOffset, TarDirectory$1
+//@ census[C26,C27] os.OpenFile in (*StreamHandler).WriteUploadedFile, CreatePartialFile, OpenPartialFileForAppend, UntarDirectory
+//@ census[C26,C27] os.MkdirAll in (*StreamHandler).WriteUploadedFile, CreatePartialFile, UntarDirectory
+//@ census[C26,C27] os.ReadDir in (*StreamHandler).browseDelete, (*StreamHandler).browseList
+//@ census[C26,C27] os.Chmod in (*StreamHandler).browseChmod, FinalizePartial
+//@ census[C26,C27] os.Remove in CleanupPartial, CreatePartialFile, FinalizePartial, HasPartialFile, UntarDirectory, WritePartialInfo
+//@ census[C26,C27] os.RemoveAll in -
+//@ census[C26,C27] os.Readlink in TarDirectory$1, resolveSymlink
+//@ census[C26,C27] os.Symlink in UntarDirectory
+//@ census[C26,C27] os.Link in UntarDirectory
+//@ census[C26,C27] os.Rename in FinalizePartial, WritePartialInfo
+//@ census[C26,C27] os.WriteFile in WritePartialInfo
+//@ census[C26,C27] os.ReadFile in ReadPartialInfo
+//@ census[C26,C27] os.Create in -
+//@ census[C26,C27] os.CreateTemp in -
+//@ census[C26,C27] os.Mkdir in -
+//@ census[C26,C27] os.MkdirTemp in -
+//@ census[C26,C27] os.Truncate in -
+//@ census[C26,C27] os.Chown in -
+//@ census[C26,C27] os.Chtimes in -
+//@ census[C26,C27] filepath.Walk in CalculateDirectorySize, TarDirectory
+//@ census[C26,C27] filepath.WalkDir in -
+//@ census[C26,C27] filepath.Glob in -
+//@ census[C26,C27] filepath.EvalSymlinks in (*StreamHandler).validateSymlinkTarget
+//@ census[C26,C27] UntarDirectory in (*StreamHandler).WriteUploadedFile
+//@ census[C26] TarDirectory in (*StreamHandler).ReadFileForDownload$1
+//@ census[C26] CalculateDirectorySize in (*StreamHandler).WriteUploadedFile
+//@ census[C26] (*StreamHandler).validatePath in (*StreamHandler).requirePath, (*StreamHandler).validateCommon, (*StreamHandler).validateSymlinkTarget
+//@ census[C26] (*StreamHandler).validateCommon in (*StreamHandler).ValidateDownloadMetadata, (*StreamHandler).ValidateUploadMetadata
+//@ census[C26] HasPartialFile in -
+//@ census[C26] CreatePartialFile in -
+//@ census[C26] OpenPartialFileForAppend in -
+//@ census[C26] FinalizePartial in -
+//@ census[C26] CleanupPartial in -
+//@ census[C26] UpdatePartialProgress in -
